@@ -28,7 +28,7 @@ def world():
     d = tlc.scratch('c19_')
     path = os.path.join(d, 's.fcs')
     ev = [[0, 0, 0], [4, 255, 999], [2, 100, 500], [1, 17, 333], [3, 254, 1]]
-    fcsgen.write_sample(path, ev, ['c1', 'c2', 'c3'], RES, bits=16, pne=['1,1', '4,1', '2,0.5'])
+    fcsgen.write_sample(path, ev, ['c1', 'c2', 'c3'], RES, bits=16, pne=['7,0.1', '4,1', '2,0.5'])
     with warnings.catch_warnings():
         warnings.simplefilter('ignore')
         raw = FlowCal.io.FCSData(path)
@@ -51,7 +51,8 @@ def world():
     return W
 
 
-PNE = [(1.0, 1.0), (4.0, 1.0), (2.0, 0.5)]
+PNE = [(7.0, 0.1), (4.0, 1.0), (2.0, 0.5)]     # channel 1: offset below 1 and more than five decades: its RFI range starts
+                                               # at a POSITIVE value below max/1e5 (log bins keep that limit)
 
 
 def declared_range(state, col):
